@@ -631,7 +631,8 @@ func (x *Exec) implementsTerm(v Term, it types.Type) Term {
 		return Not(Eq(v, T(SVal, "nilv")))
 	}
 	var yes []Term
-	for key, bi := range boxTable {
+	for _, key := range sortedKeys(boxTable) {
+		bi := boxTable[key]
 		ct := x.E.typeByKey(key)
 		if ct == nil {
 			continue
